@@ -50,6 +50,7 @@ pub struct Profile {
     pub dependent_permille: u64,
     pub max_batch: usize,
     pub big_values_permille: u64,
+    pub degenerate_permille: u64,
 }
 
 impl Default for Profile {
@@ -68,6 +69,7 @@ impl Default for Profile {
             dependent_permille: 350,
             max_batch: 8,
             big_values_permille: 60,
+            degenerate_permille: 0,
         }
     }
 }
@@ -130,6 +132,10 @@ pub fn make_owners(seed: u64, n: usize) -> Vec<Owner> {
             Owner { key, addr_new: addr_of(&cov_new), cov_new, addr_legacy: addr_of(&cov_legacy), cov_legacy }
         })
         .collect()
+}
+
+pub fn is_custom(d: &Denom) -> bool {
+    matches!(d, Denom::Custom(_))
 }
 
 pub fn destroy_addr() -> Address {
@@ -940,9 +946,186 @@ impl World {
         Some((tx, format!("stake {} amount_match={}", label, staked == v)))
     }
 
+    /// Degenerate but well-formed requests an adversary can submit: zero-valued pool requests,
+    /// proofs and stake documents that do not decode or decode to nothing, liquidity tokens minted
+    /// by a test-network faucet and redeemed.
+    pub fn gen_degenerate(&mut self) -> Option<(Transaction, String)> {
+        let covhash = {
+            let o = self.rng.usize(self.owners.len());
+            self.owners[o].addr_new
+        };
+        match self.rng.below(9) {
+            0 => {
+                // swap request whose side total is zero
+                let pools = self.known_pools();
+                let key = *self.rng.pick(&pools);
+                let side = if self.rng.chance(1, 2) { key.left() } else { key.right() };
+                let mut want = vec![Denom::Mel];
+                if side != Denom::Mel {
+                    want.insert(0, side);
+                }
+                let inputs = self.pick_inputs(&want, 0);
+                if !inputs.iter().any(|(_, c)| c.coin_data.denom == side) {
+                    return None;
+                }
+                let payload = vec![CoinData { covhash, value: CoinValue(0), denom: side, additional_data: Bytes::new() }];
+                let tx = self.complete(TxKind::Swap, inputs, payload, key.to_bytes().to_vec(), 0)?;
+                Some((tx, "degenerate:zero-valued-swap".into()))
+            }
+            1 => {
+                // deposit with one (or both) sides zero
+                let mut cands = self.known_pools();
+                for c in self.customs.clone() {
+                    cands.push(PoolKey::new(Denom::Mel, c));
+                }
+                let key = *self.rng.pick(&cands);
+                let mut want = vec![key.left(), key.right()];
+                if !want.contains(&Denom::Mel) {
+                    want.push(Denom::Mel);
+                }
+                let inputs = self.pick_inputs(&want, 0);
+                let la: u128 = inputs.iter().filter(|(_, c)| c.coin_data.denom == key.left()).map(|(_, c)| c.coin_data.value.0).sum();
+                let ra: u128 = inputs.iter().filter(|(_, c)| c.coin_data.denom == key.right()).map(|(_, c)| c.coin_data.value.0).sum();
+                if la == 0 || ra == 0 {
+                    return None;
+                }
+                let (lv, rv, lab) = match self.rng.below(3) {
+                    0 => (0, self.amount((ra / 2).max(1)), "left-zero"),
+                    1 => (self.amount((la / 2).max(1)), 0, "right-zero"),
+                    _ => (0, 0, "both-zero"),
+                };
+                let payload = vec![
+                    CoinData { covhash, value: CoinValue(lv), denom: key.left(), additional_data: Bytes::new() },
+                    CoinData { covhash, value: CoinValue(rv), denom: key.right(), additional_data: Bytes::new() },
+                ];
+                let tx = self.complete(TxKind::LiqDeposit, inputs, payload, key.to_bytes().to_vec(), 0)?;
+                Some((tx, format!("degenerate:deposit-{}", lab)))
+            }
+            2 | 3 => {
+                // ERG mint with a proof that is empty, truncated or garbage
+                let inputs = self.pick_inputs(&[Denom::Mel], 0);
+                if inputs.is_empty() {
+                    return None;
+                }
+                let (proof, lab): (Vec<u8>, &str) = match self.rng.below(5) {
+                    0 => (vec![], "empty-proof"),
+                    1 => (self.rng.bytes(40), "one-garbage-node"),
+                    2 => (self.rng.bytes(40 * 7), "seven-garbage-nodes"),
+                    3 => (self.rng.bytes(41), "odd-length"),
+                    _ => {
+                        // a node map that contains the root node only
+                        let mut v = vec![0u8; 8];
+                        v.extend(self.rng.bytes(32));
+                        (v, "root-node-only")
+                    }
+                };
+                let difficulty: u32 = *self.rng.pick(&[0u32, 1, 5, 20, 64, 65, 100, 101, 127, 128, 200, u32::MAX]);
+                let data = if self.rng.chance(1, 6) { self.rng.bytes(self.rng.clone().usize(20)) } else { stdcode::serialize(&(difficulty, proof)).unwrap() };
+                let erg = self.amount(1u128 << 60);
+                let payload = vec![CoinData { covhash, value: CoinValue(erg), denom: Denom::Erg, additional_data: Bytes::new() }];
+                let tx = self.complete(TxKind::DoscMint, inputs, payload, data, 0)?;
+                Some((tx, format!("degenerate:doscmint-{}-difficulty-{}", lab, if difficulty > 100 { ">100" } else if difficulty > 64 { "65..100" } else { "<=64" })))
+            }
+            4 => {
+                // stake with undecodable / truncated document
+                let inputs = self.pick_inputs(&[Denom::Sym, Denom::Mel], 0);
+                let avail: u128 = inputs.iter().filter(|(_, c)| c.coin_data.denom == Denom::Sym).map(|(_, c)| c.coin_data.value.0).sum();
+                if avail == 0 {
+                    return None;
+                }
+                let data = match self.rng.below(3) {
+                    0 => vec![],
+                    1 => self.rng.bytes(self.rng.clone().usize(60)),
+                    _ => {
+                        let d = StakeDoc { pubkey: self.owners[0].key.pk, e_start: u64::MAX, e_post_end: u64::MAX, syms_staked: CoinValue(u128::MAX) };
+                        d.stdcode()
+                    }
+                };
+                let v = self.amount(avail.min(MAX_COINVAL));
+                let outs = if self.rng.chance(1, 4) { vec![] } else { vec![CoinData { covhash, value: CoinValue(v), denom: Denom::Sym, additional_data: Bytes::new() }] };
+                let tx = self.complete(TxKind::Stake, inputs, outs, data, 0)?;
+                Some((tx, "degenerate:stake-document".into()))
+            }
+            5 => {
+                // test-network faucet minting liquidity tokens of an existing pool
+                if self.net == NetID::Mainnet || !self.allow_faucet_liq {
+                    return None;
+                }
+                let pools = self.known_pools();
+                let key = *self.rng.pick(&pools);
+                let v = self.amount(1u128 << 100);
+                let tx = Transaction {
+                    kind: TxKind::Faucet,
+                    inputs: vec![],
+                    outputs: vec![
+                        CoinData { covhash, value: CoinValue(v), denom: key.liq_token_denom(), additional_data: Bytes::new() },
+                        CoinData { covhash, value: CoinValue(0), denom: key.liq_token_denom(), additional_data: Bytes::new() },
+                        CoinData { covhash, value: CoinValue(1 << 60), denom: Denom::Mel, additional_data: Bytes::new() },
+                    ],
+                    fee: CoinValue(MAX_COINVAL.min(1 << 70)),
+                    covenants: vec![],
+                    data: self.rng.bytes(8).into(),
+                    sigs: vec![],
+                };
+                Some((tx, "degenerate:faucet-mints-liquidity-token".into()))
+            }
+            6 => {
+                // zero-valued withdrawal (needs a zero-valued liquidity coin)
+                let zero = self.spendable().into_iter().find(|(_, c)| c.coin_data.value.0 == 0 && is_custom(&c.coin_data.denom));
+                let (zid, zc) = zero?;
+                let key = self.known_pools().into_iter().find(|k| k.liq_token_denom() == zc.coin_data.denom)?;
+                let mel = self.spendable().into_iter().find(|(_, c)| c.coin_data.denom == Denom::Mel && c.coin_data.value.0 <= MAX_COINVAL)?;
+                let inputs = vec![mel.clone(), (zid, zc.clone())];
+                let mut tx = Transaction {
+                    kind: TxKind::LiqWithdraw,
+                    inputs: inputs.iter().map(|x| x.0).collect(),
+                    outputs: vec![CoinData { covhash, value: CoinValue(0), denom: zc.coin_data.denom, additional_data: Bytes::new() }],
+                    fee: mel.1.coin_data.value,
+                    covenants: vec![],
+                    data: key.to_bytes(),
+                    sigs: vec![],
+                };
+                self.authorise(&mut tx, &inputs);
+                Some((tx, "degenerate:zero-valued-withdrawal".into()))
+            }
+            7 => {
+                // split a liquidity coin into (0, rest) so that zero-valued liquidity coins exist
+                let liq = self.spendable().into_iter().find(|(_, c)| is_custom(&c.coin_data.denom) && self.known_pools().iter().any(|k| k.liq_token_denom() == c.coin_data.denom))?;
+                let mel = self.spendable().into_iter().find(|(_, c)| c.coin_data.denom == Denom::Mel)?;
+                let payload = vec![CoinData { covhash, value: CoinValue(0), denom: liq.1.coin_data.denom, additional_data: Bytes::new() }];
+                let tx = self.complete(TxKind::Normal, vec![mel, liq], payload, vec![], 0)?;
+                Some((tx, "degenerate:make-zero-liquidity-coin".into()))
+            }
+            _ => {
+                // swap whose input side is the maximum coin value
+                let pools = self.known_pools();
+                let key = *self.rng.pick(&pools);
+                let side = key.left();
+                let mut want = vec![Denom::Mel];
+                if side != Denom::Mel {
+                    want.insert(0, side);
+                }
+                let inputs = self.pick_inputs(&want, 0);
+                let avail: u128 = inputs.iter().filter(|(_, c)| c.coin_data.denom == side).map(|(_, c)| c.coin_data.value.0).sum();
+                if avail == 0 {
+                    return None;
+                }
+                let v = avail.min(MAX_COINVAL) - if side == Denom::Mel { avail.min(MAX_COINVAL) / 2 } else { 0 };
+                let payload = vec![CoinData { covhash, value: CoinValue(v), denom: side, additional_data: Bytes::new() }];
+                let tx = self.complete(TxKind::Swap, inputs, payload, key.to_bytes().to_vec(), 0)?;
+                Some((tx, "degenerate:huge-swap".into()))
+            }
+        }
+    }
+
     /// One generated transaction with a label saying what it is.
     pub fn gen_any(&mut self) -> Option<(Transaction, String)> {
         let p = self.profile.clone();
+        if p.degenerate_permille > 0 && self.rng.chance(p.degenerate_permille, 1000) {
+            if let Some(x) = self.gen_degenerate() {
+                return Some(x);
+            }
+        }
         let total = p.normal + p.newcustom + p.faucet + p.swap + p.deposit + p.withdraw + p.stake;
         let mut x = self.rng.below(total.max(1));
         let mut pick = |w: u64| {
